@@ -15,6 +15,7 @@ mod c12;
 mod eon;
 mod birth;
 mod cmd;
+mod wire;
 
 use common::*;
 use std::path::{Path, PathBuf};
@@ -41,6 +42,7 @@ fn replay_file(comp: &str, path: &Path, out: &mut Out) {
         "eon" => eon::replay(&desc, &ops, out),
         "birth" => birth::replay(&desc, &ops, out),
         "cmd" => cmd::replay(&desc, &ops, out),
+        "wire" => wire::replay(&desc, &ops, out),
         _ => panic!("unknown component"),
     }
 }
@@ -146,6 +148,7 @@ fn main() {
         "eon" => eon::run(&args, &mut out),
         "birth" => birth::run(&args, &mut out),
         "cmd" => cmd::run(&args, &mut out),
+        "wire" => wire::run(&args, &mut out),
         _ => {
             eprintln!("unknown component {}", comp);
             std::process::exit(2)
